@@ -36,7 +36,7 @@ Fractional == { "-2147483646.5", "-32766.5", "-128.5", "-0.5", "0.5", "1.5", "12
 
 \* strings in code-point order (the harness self-checks the order with Go's
 \* byte-wise comparison of UTF-8, which coincides with code-point order)
-StrLine == << "", " ", "0", "10", "9", "A", "B", "Z", "a", "a b", "aa", "ab", "b", "z",
+StrLine == << "", " ", "0", "10", "50%", "9", "A", "B", "Z", "a", "a b", "a+b", "aa", "ab", "b", "z",
               "~", "é", "ÿ", "中" >>
 
 BoolLine == << "false", "true" >>
